@@ -2,8 +2,31 @@
 from .core import core_check
 
 
+def _structural(chk):
+    """the structural level (lists, dicts, constructor calls): categories of `==` against a container"""
+    from . import assign
+    from .. import assign_replay, tlc
+    sizes = assign.SIZES[chk.tier]
+    for shape in ("call", "seq"):
+        ts_mc, ts, st, keep = sizes[shape]
+        res = tlc.run_tlc("MC_Assign", "Assign_%s.cfg" % shape, workers=16, timeout=3000,
+                          extra_files={"run.cfg": assign._cfg(shape, ["C05"], {"Mode": "mc", "TStride": ts_mc, "Offset": chk.seed % ts_mc})})
+        chk.add_tlc(res, "mc Assign_%s (C05)" % shape)
+        if not res.ok:
+            chk.spec_violation(res, "mc Assign_" + shape)
+        tlc.cleanup(res)
+        res = tlc.run_tlc("MC_Assign", "Assign_%s.cfg" % shape, workers=16, timeout=3000,
+                          extra_files={"run.cfg": assign._cfg(shape, ["Emit"], {"Mode": "emit", "TStride": ts * 2, "Stride": st, "Offset": chk.seed % 7})})
+        chk.add_tlc(res, "emit Assign_%s" % shape)
+        try:
+            cases = assign_replay.load_cases(res.out_dir, seed=chk.seed, keep_every=keep)
+        finally:
+            tlc.cleanup(res)
+        assign.run_cases(chk, cases, shape)
+
+
 def run():
-    chk = core_check("C05", cfgs=("A", "B"), quick_keep=12, thorough_keep=4)
+    chk = core_check("C05", cfgs=("A", "B"), quick_keep=12, thorough_keep=4, extra=_structural)
     if isinstance(chk, int):
         return chk
     chk.assumptions += ["snapshots without user-controlled parts; leaf values (structured values: C02/C11)"]
